@@ -204,3 +204,23 @@ Print Assumptions c10_checker_sound.
 Theorem c10_checker_sound_aggregate : forall sh es c, agg_okb sh es c = true -> agg_ok sh es c.
 Proof. exact agg_okb_sound. Qed.
 Print Assumptions c10_checker_sound_aggregate.
+
+(* ---------------------------------------------------------------- hash-equal borrowed / owned keys *)
+From MV Require Import C10.HashKeys.
+
+(* A table that stores hashes (lookup and first insert hash the borrowed key, resizes at ARBITRARY moments
+   re-hash the owned key): if owned and borrowed keys hash alike it conserves, for every operation list. *)
+Theorem c10_hash_equal_keys : forall (hb ho : key -> N) sh, (forall k, ho k = hb k) ->
+  forall f ops,
+  let r := hrun hb ho sh (apply_kf f) ops in
+  tree_ok sh (flat_map hop_op ops) (SKeyed f (erase (fst r)) (snd r)).
+Proof. exact stored_hashes_conserve. Qed.
+Print Assumptions c10_hash_equal_keys.
+
+(* ... and the premise is needed: with unequal hashes a resize makes one flush emit a key twice. *)
+Theorem c10_hash_unequal_keys_refuted :
+  exists (hb ho : key -> N) (e : entry),
+    let r := hrun hb ho (mkS 1 0 0) e_key [HMerge e; HRehash; HMerge e; HFlushOp] in
+    snd r = [[(e_key e, mkC [1] [] []); (e_key e, mkC [1] [] [])]].
+Proof. exact stored_hashes_need_equality. Qed.
+Print Assumptions c10_hash_unequal_keys_refuted.
